@@ -4073,6 +4073,20 @@ static WBXMLError wbxml_strtbl_check_references(WBXMLEncoder *encoder, WBXMLList
     {
         ref = (WBXMLStringTableElement *) wbxml_list_extract_first(referenced);
         if ((ref->count > 1) && (wbxml_buffer_len(ref->string) > WBXML_ENCODER_STRING_TABLE_MIN)) {
+            /* The String Table must own its strings: the buffer of a Text Node is stripped in place
+             * when the node is encoded, after the offsets and the length of the table were computed */
+            if (ref->stat) {
+                WBXMLBuffer *copy = wbxml_buffer_duplicate(ref->string);
+                if (copy == NULL) {
+                    wbxml_strtbl_element_destroy(ref);
+                    wbxml_list_destroy(referenced, wbxml_strtbl_element_destroy_item);
+                    wbxml_list_destroy(result, wbxml_strtbl_element_destroy_item);
+                    return WBXML_ERROR_NOT_ENOUGH_MEMORY;
+                }
+                ref->string = copy;
+                ref->stat = FALSE;
+            }
+
             /* Add Element to String Table */
             if (!wbxml_strtbl_add_element(encoder, ref, NULL, &added)) {
                 wbxml_strtbl_element_destroy(ref);
